@@ -45,6 +45,10 @@ func runC01(c *Check, tier string) {
 	useFamily(c, "R01n", famStore, 20)
 	useFamily(c, "R01o", famRestore, 20)
 	ruleMemoKeyComplete(c, "R01k", "loading", "hashing", "execution", "output", "dag", "analysis", "selection", "config", "label", "model", "caching", "cmd")
+	// every input the user declared is a key source: a pattern must be recognised as one
+	ruleGlobMetaComplete(c, "R01t")
+	// a record names only digests whose content was stored
+	ruleRecordOnlyAfterStore(c, "R01u")
 }
 
 // ruleResolverTotal (shared with C02/C15): a function of internal/dag that turns a node's dependency list
